@@ -124,6 +124,19 @@ class STIXdatetime(dt.datetime):
         return "'%s'" % format_datetime(self)
 
 
+def version_instant(value):
+    """
+    A "modified" (or "created") value, datetime or timestamp text, as a UTC
+    datetime.  Datetimes of one time zone compare and hash by their local
+    fields, which makes the two readings of an ambiguous local time (fold) one
+    value; in UTC they are two.
+    """
+    value = parse_into_datetime(value)
+    if value.tzinfo is not None:
+        value = value.astimezone(pytz.utc)
+    return value
+
+
 def deduplicate(stix_obj_list):
     """Deduplicate a list of STIX objects to a unique set.
 
@@ -148,12 +161,12 @@ def deduplicate(stix_obj_list):
     for obj in stix_obj_list:
         ver = obj.get("modified") or obj.get("created")
 
-        if isinstance(ver, str):
-            # Objects of unregistered types are dicts with timestamp text:
-            # a version is an instant, whatever its spelling.
+        if ver is not None:
+            # A version is an instant, whatever its spelling (objects of
+            # unregistered types are dicts with timestamp text) or time zone.
             try:
-                ver = parse_into_datetime(ver)
-            except ValueError:
+                ver = version_instant(ver)
+            except (ValueError, TypeError):
                 pass
 
         if ver is None:
